@@ -384,6 +384,10 @@ def step (s : St) (w : List String) : St × String :=
     match parseList? l with
     | some l => (s, showTree l)
     | none => (s, "bad-op")
+  | ["mshape", _, l] =>
+    match parseList? l with
+    | some l => (s, showTree l ++ " leaves=" ++ (if l.isEmpty then "-" else ",".intercalate (l.map toString)))
+    | none => (s, "bad-op")
   | ["ms", l, j] =>
     match parseList? l, parseInt? j with
     | some l, some j =>
